@@ -2,6 +2,8 @@ package scen
 
 import (
 	"fmt"
+	"sort"
+	"strings"
 	"time"
 
 	"github.com/anthdm/hollywood/ringbuffer"
@@ -88,9 +90,45 @@ func applyRingOp(rb *ringbuffer.RingBuffer[int], m *ringModel, op ringOp) string
 	return ""
 }
 
-func ringKey(rb *ringbuffer.RingBuffer[int], size int64) [5]int64 {
+// ringKey is the canonical state: the internal geometry plus the order-normalised contents of
+// the whole items array (every live value replaced by its rank among the values present, dead
+// slots must be zero) plus the model queue under the same renaming. The buffer is
+// value-oblivious, so states that differ only by an order-preserving renaming of the values
+// have the same futures; nothing else is merged (in particular a buffer that was grown while
+// wrapped is only merged with one grown while unwrapped if the copied layout is identical).
+func ringKey(rb *ringbuffer.RingBuffer[int], size int64, m *ringModel) string {
+	mod, head, tail, ln, items := ringbuffer.VerifGeometry(rb)
+	vals := []int{}
+	for _, v := range items {
+		if v != 0 {
+			vals = append(vals, v)
+		}
+	}
+	for _, v := range m.q {
+		vals = append(vals, v)
+	}
+	sort.Ints(vals)
+	rank := map[int]int{}
+	for _, v := range vals {
+		if _, ok := rank[v]; !ok {
+			rank[v] = len(rank) + 1
+		}
+	}
+	var sb strings.Builder
+	fmt.Fprintf(&sb, "%d/%d/%d/%d/%d|", size, mod, head, tail, ln)
+	for _, v := range items {
+		fmt.Fprintf(&sb, "%d,", rank[v])
+	}
+	sb.WriteByte('|')
+	for _, v := range m.q {
+		fmt.Fprintf(&sb, "%d,", rank[v])
+	}
+	return sb.String()
+}
+
+func ringGeom(rb *ringbuffer.RingBuffer[int]) [4]int64 {
 	mod, head, tail, ln, _ := ringbuffer.VerifGeometry(rb)
-	return [5]int64{size, mod, head, tail, ln}
+	return [4]int64{mod, head, tail, ln}
 }
 
 func ringSeqRun(tier string, budget int) *DirectReport {
@@ -102,12 +140,12 @@ func ringSeqRun(tier string, budget int) *DirectReport {
 	deadline := time.Now().Add(time.Duration(budget) * time.Second)
 	maxDepth := 0
 	for size := int64(1); size <= 4; size++ {
-		seen := map[[5]int64]bool{}
+		seen := map[string]bool{}
 		type node struct{ path []ringOp }
 		frontier := []node{{}}
 		{
 			rb := ringbuffer.New[int](size)
-			seen[ringKey(rb, size)] = true
+			seen[ringKey(rb, size, &ringModel{})] = true
 		}
 		for d := 0; d < depth && len(frontier) > 0; d++ {
 			var next []node
@@ -141,14 +179,15 @@ func ringSeqRun(tier string, budget int) *DirectReport {
 						rep.Witnesses[sig].Count++
 						continue
 					}
-					k := ringKey(rb, size)
-					rep.Outcomes[fmt.Sprintf("mod=%d wrapped=%v grown=%v", k[1], k[3] < k[2], k[1] != size)]++
+					k := ringKey(rb, size, m)
+					g := ringGeom(rb)
+					rep.Outcomes[fmt.Sprintf("mod=%d wrapped=%v grown=%v", g[0], g[2] < g[1], g[0] != size)]++
 					if !seen[k] {
 						seen[k] = true
 						p := append(append([]ringOp{}, nd.path...), op)
 						next = append(next, node{p})
 						if len(rep.Samples) < 5 && len(p) > 5 {
-							rep.Samples = append(rep.Samples, fmt.Sprintf("size=%d %s -> geometry(mod,head,tail,len)=%v", size, pathStr(p), k[1:]))
+							rep.Samples = append(rep.Samples, fmt.Sprintf("size=%d %s -> geometry(mod,head,tail,len)=%v", size, pathStr(p), g))
 						}
 					}
 				}
@@ -161,7 +200,7 @@ func ringSeqRun(tier string, budget int) *DirectReport {
 		rep.States += int64(len(seen))
 	}
 done:
-	rep.Note += fmt.Sprintf(" BFS depth %d over initial sizes 1..4, state key = (initial size, mod, head, tail, len): growth is exercised at every reachable head/tail position", maxDepth)
+	rep.Note += fmt.Sprintf(" BFS depth %d over initial sizes 1..4, state key = (initial size, mod, head, tail, len, rank-normalised items array, rank-normalised model queue): growth is exercised at every reachable head/tail position and a grown buffer is merged with another only if its copied layout is identical", maxDepth)
 	return rep
 }
 
